@@ -276,4 +276,5 @@ def units(tier):
         Unit("random-binary", check, strategy=lambda: cases(12, ["bu", "bd"]), examples=(2000, 80000), shards=(8, 16)),
         Unit("random-binary-n<=25", check, strategy=lambda: cases(25, ["bu", "bd"]), examples=(500, 32000), shards=(8, 16)),
         Unit("random-score", check, strategy=lambda: cases(10, ["wu"]), examples=(2400, 80000), shards=(8, 16)),
+        Unit("random-n<=45", check, strategy=lambda: cases(45, ["bu", "bd", "wu"]), examples=(80, 1600), shards=(8, 16)),
     ]
